@@ -82,10 +82,14 @@ func (t *ReuseConnTransport) ExchangeContext(ctx context.Context, m []byte) (*dn
 	retry := 0
 	for {
 		var isNewConn bool
-		c, err := t.getIdleConn()
-		if err != nil {
-			errs = append(errs, err)
-			return nil, joinErr(errs)
+		var c *reusableConn
+		var err error
+		if retry <= 5 { // The last attempt always dials. All idle connections may be dead.
+			c, err = t.getIdleConn()
+			if err != nil {
+				errs = append(errs, err)
+				return nil, joinErr(errs)
+			}
 		}
 		if c == nil {
 			isNewConn = true
